@@ -1,13 +1,16 @@
 //! Shared parts of the correspondence harness: PRNG, virtual clock, helpers, report writer.
 //! One binary per property lives in `src/bin/`.
+pub mod baton;
 pub mod clock;
 pub mod dcnet;
+pub mod microrun;
 pub mod rng;
 pub mod seq;
 pub mod seqgen;
 pub mod util;
 pub mod sim;
 pub mod exec;
+pub mod wkcnet;
 
 /// Standard entry point of a property binary: `<bin> <quick|thorough> <seed> <outdir> [--replay FILE]`.
 pub struct Args {
@@ -65,3 +68,6 @@ pub fn replay_cases(args: &Args) -> Option<Vec<String>> {
     }
     Some(out)
 }
+pub mod eeprom_devsim;
+pub mod eeprom_gen;
+pub mod coerig;
